@@ -8,9 +8,20 @@ request : `<op> <Class> [params] [xs] (<censor>)`      op ∈ fwd | bwd | jac | 
           Softmax: `<op> Softmax [] [row;row;…]`
 reply   : `ok [state] [values] [bounds]`  |  `err <name>`  |  `bad-op`
           (`state` = inner BoxCox2 `nu,lam` after the call for the delegating classes, `[]` otherwise)
+
+history : `hist <Class> <mininu> <minilam> <base|nan> <op> <op> …` runs `mkObj` then `TObj.run` (Model/C01Obj) on the
+          operations  `sa:k:v` (t.k = v)  `si:k:v` (t[k] = v)  `sp:k:v` (t.params[k] = v)  `sc:k:v` (t.constants[k] = v)
+          `pv:[…]` (t.params.values = …)  `cv:[…]`  `rs` (t.reset())  `f:[xs]` `b:[ys]` `j:[xs]` `c:censor:[ys]`
+reply   : `ok <r> <r> …`, one token per operation: `d;S` accepted · `r:<err>;S` rejected · `e:<err>;S` the call raised ·
+          `v;S;[values];[bounds]` — `S = [p];[c];[i];[g]` = parameter, constant and inner-BoxCox2 values AFTER the
+          operation and `t[k]` (`TObj.getItem`) for every parameter / constant name (the first token is the freshly
+          constructed object, the last one `R;S;n` the end state of `TObj.run` on the whole list); `ctor-err <name>`
+          when the constructor rejects
+getkw   : `getkw <Class> <mininu> <minilam> <base|nan> k:v k:v …` = `getTransform` → `ok S` | `ctor-err <name>`
 -/
 import HydroVerif.Proto
 import HydroVerif.Model.C01
+import HydroVerif.Model.C01Obj
 open HydroVerif HydroVerif.C01
 
 /-- value and absolute error bound -/
@@ -267,8 +278,106 @@ def handleSoftmax (op nd rows : String) : String :=
     | _, .error e => "err " ++ e
   | none => "bad-op"
 
+/-! ### histories on the object model (Model/C01Obj) -/
+
+def setErrName : SetErr → String
+  | .nanValue => "nanValue" | .badLength => "badLength" | .unknownKey => "unknownKey" | .badCtor => "badCtor"
+
+def optTok? (s : String) : Option (Option Float) := (floatTok? s).map optF
+def optList? (s : String) : Option (List (Option Float)) := (parseFloatList? s).map fun l => l.map optF
+
+/-- one operation token -/
+def parseOp? (tok : String) : Option (TOp Float) :=
+  match tok.splitOn ":" with
+  | ["sa", k, v] => (optTok? v).map (TOp.setAttr k)
+  | ["si", k, v] => (optTok? v).map (TOp.setItem k)
+  | ["sp", k, v] => (optTok? v).map (TOp.setPItem k)
+  | ["sc", k, v] => (optTok? v).map (TOp.setCItem k)
+  | ["pv", l] => (optList? l).map TOp.setPValues
+  | ["cv", l] => (optList? l).map TOp.setCValues
+  | ["rs"] => some TOp.reset
+  | ["f", l] => (parseFloatList? l).map (TOp.call .fwd 0.0)
+  | ["b", l] => (parseFloatList? l).map (TOp.call .bwd 0.0)
+  | ["j", l] => (parseFloatList? l).map (TOp.call .jac 0.0)
+  | ["c", c, l] => match floatTok? c, parseFloatList? l with
+    | some c, some l => some (TOp.call .cens c l)
+    | _, _ => none
+  | _ => none
+
+def opToEF : TOp Float → TOp EF
+  | .setAttr k v => .setAttr k (v.map EF.ofF)
+  | .setItem k v => .setItem k (v.map EF.ofF)
+  | .setPItem k v => .setPItem k (v.map EF.ofF)
+  | .setCItem k v => .setCItem k (v.map EF.ofF)
+  | .setPValues vs => .setPValues (vs.map fun v => v.map EF.ofF)
+  | .setCValues vs => .setCValues (vs.map fun v => v.map EF.ofF)
+  | .reset => .reset
+  | .call m c xs => .call m (EF.ofF c) (xs.map EF.ofF)
+
+/-- parameter, constant and inner values, then `t[k]` (`TObj.getItem`) for every parameter and constant name -/
+def fmtState (o : TObj Float) : String :=
+  let reads := (o.pspec.names ++ o.cspec.names).map fun k => match o.getItem k with
+    | .ok v => fmtOptFloat v
+    | .error e => setErrName e
+  s!"{fmtVals o.pvals};{fmtVals o.cvals};{fmtVals o.ivals};{fmtList reads}"
+
+def sameVals (a : List (Option Float)) (b : List (Option EF)) : Bool :=
+  a.length == b.length && (a.zip b).all fun (x, y) => match x, y with
+    | none, none => true
+    | some x, some y => hexOfFloat x == hexOfFloat y.v
+    | _, _ => false
+
+/-- the history at `Float` (values, states) and at `EF` (bounds), operation by operation -/
+def histLoop : TObj Float → TObj EF → List (TOp Float) → List String → List String
+  | _, _, [], acc => acc.reverse
+  | o, oe, op :: ops, acc =>
+    let (o1, r) := o.step op
+    let (oe1, re) := oe.stepWith Cens.cens (opToEF op)
+    let st := fmtState o1
+    let same := sameVals o1.pvals oe1.pvals && sameVals o1.cvals oe1.cvals && sameVals o1.ivals oe1.ivals
+    let tok := if !same then "ef-mismatch" else match r, re with
+      | .done, .done => s!"d;{st}"
+      | .rejected e, .rejected _ => s!"r:{setErrName e};{st}"
+      | .raised e, .raised _ => s!"e:{errName e};{st}"
+      | .values vs, .values es =>
+        if sameVals vs es then
+          let bounds := es.map fun o => match o with
+            | none => 0.0
+            | some (e : EF) => e.e
+          s!"v;{st};{fmtVals vs};{fmtFloatList bounds}"
+        else "ef-mismatch"
+      | _, _ => "ef-mismatch"
+    histLoop o1 oe1 ops (tok :: acc)
+
+def handleHist (cls mininu minilam base : String) (ops : List String) : String :=
+  match Cls.ofName? cls, floatTok? mininu, floatTok? minilam, floatTok? base, allSome (ops.map parseOp?) with
+  | some c, some mn, some ml, some b, some ops =>
+    match mkObj c mn ml (optF b), mkObj c (EF.ofF mn) (EF.ofF ml) (optEF b) with
+    | .ok o, .ok oe =>
+      -- `TObj.run` (the whole history at once) must end where the step-by-step loop ends
+      let fin := TObj.run o ops
+      "ok " ++ " ".intercalate (s!"d;{fmtState o}" :: histLoop o oe ops [] ++ [s!"R;{fmtState fin.1};{fin.2.length}"])
+    | .error e, _ => "ctor-err " ++ setErrName e
+    | _, .error e => "ctor-err " ++ setErrName e
+  | _, _, _, _, _ => "bad-op"
+
+def parseKw? (tok : String) : Option (String × Option Float) :=
+  match tok.splitOn ":" with
+  | [k, v] => (optTok? v).map fun v => (k, v)
+  | _ => none
+
+def handleGetKw (cls mininu minilam base : String) (kws : List String) : String :=
+  match floatTok? mininu, floatTok? minilam, floatTok? base, allSome (kws.map parseKw?) with
+  | some mn, some ml, some b, some kws =>
+    match getTransform cls mn ml (optF b) kws with
+    | .ok o => "ok " ++ fmtState o
+    | .error e => "ctor-err " ++ setErrName e
+  | _, _, _, _ => "bad-op"
+
 def handle (toks : List String) : String :=
   match toks with
+  | "hist" :: cls :: mininu :: minilam :: base :: ops => handleHist cls mininu minilam base ops
+  | "getkw" :: cls :: mininu :: minilam :: base :: kws => handleGetKw cls mininu minilam base kws
   | [op, "Softmax", nd, rows] => handleSoftmax op nd rows
   | ["lookup", name] => (match lookupClass name with
     | .ok c => s!"ok {fmtList c.ctorArgs} {fmtList c.params} {fmtList c.constants}"
